@@ -135,7 +135,7 @@ func aloneCheck(c Case, r *run) string {
 		}
 		sort.Strings(ran)
 		wantRan := want
-		if wantKind == "" {
+		if wantKind == "" || wantKind == "dflt" {
 			wantRan = "" // default handler
 		}
 		if strings.Join(ran, ",") != wantRan {
@@ -195,6 +195,9 @@ func build(c Case) (*fiber.App, *run) {
 				r.calls[name]++
 				return err
 			}}
+		case "dflt":
+			// the exported default handler, configured explicitly: this app has a handler of its own like any other
+			return fiber.Config{ErrorHandler: fiber.DefaultErrorHandler}
 		case "fail-fiber":
 			return fiber.Config{ErrorHandler: func(fiber.Ctx, error) error {
 				r.calls[name]++
@@ -314,7 +317,7 @@ func check(c Case) vk.Verdict {
 	}
 	ctx := fmt.Sprintf("%s %s, mounts %v (with handler: %v), root handler %q", c.Method, c.Path, all, cands, c.RootHandler)
 	wantCalls := want + " x1"
-	if wantKind == "" {
+	if wantKind == "" || wantKind == "dflt" {
 		wantCalls = "" // default handler: no tagged handler runs
 	}
 	if len(outcomes) != 1 || outcomes[wantCalls] != rep {
@@ -387,7 +390,7 @@ func genNodes(t *rapid.T, depth int, base string, shareable bool, used map[strin
 		isShared := used[full] && full == base
 		used[full] = true
 		*ctr++
-		nd := Node{Prefix: p, Handler: rapid.SampledFrom([]string{"", "ok", "ok", "fail", "fail-pass", "fail-fiber"}).Draw(t, "h"), Name: fmt.Sprintf("app%d", *ctr)}
+		nd := Node{Prefix: p, Handler: rapid.SampledFrom([]string{"", "ok", "ok", "fail", "fail-pass", "fail-fiber", "dflt"}).Draw(t, "h"), Name: fmt.Sprintf("app%d", *ctr)}
 		nd.ViaGroup = rapid.IntRange(0, 2).Draw(t, "viagroup") == 0
 		nd.CS = rapid.IntRange(0, 2).Draw(t, "subcs") == 0
 		if depth > 0 {
